@@ -370,6 +370,10 @@ def forms():
 # in it is not uniquely resolved by the live table; props/c04.py then reports it as VIOLATION
 # unless known_findings.json lists (property C04, this clause name).  `args`: per position the
 # class names (an argument belongs when it is a subclass of one of them; [] = anything).
+# All three are INACTIVE on the current /repo (the ties were repaired: 705c3a7, dd1f79c, 2e9f067), every
+# generated `clauses_f` is `[]`, and Properties/C04/PartG.lean proves exactly that
+# (`C04_no_recorded_exception`): when a clause becomes active again the Lean gate breaks on purpose and
+# props/c04.py reports the failing calls; keeping the exception needs a deliberate restatement there.
 CLAUSES = [
     {"clause": "pinv-base-alg-ties-structural", "fn": "pinv",
      "args": [["Identity", "ScalarMul", "Diagonal", "Permutation"], ["CG", "LSTSQ"]],
